@@ -359,6 +359,25 @@ func (g *qgen) join(a, b *table) *query {
 			}
 		}
 	}
+	// pairs whose two columns both lead an index: the shape the analyzer plans as a merge join
+	leads := func(t *table, c int) bool {
+		for _, ix := range t.orderedIndexes() {
+			if ix[0] == c {
+				return true
+			}
+		}
+		return false
+	}
+	var idxPairs [][2]int
+	for _, p := range pairs {
+		if leads(a, p[0]) && leads(b, p[1]) {
+			idxPairs = append(idxPairs, p)
+		}
+	}
+	if len(idxPairs) > 0 && g.chance(2, "onindexed") {
+		pairs = idxPairs
+		q.labels = append(q.labels, "join:on-indexed-columns")
+	}
 	if len(pairs) > 0 && !g.chance(4, "onid") {
 		p := pairs[g.intn(0, len(pairs)-1, "onpair")]
 		on = "x." + a.cols[p[0]].name + " = y." + b.cols[p[1]].name
